@@ -9,6 +9,11 @@
 //! a bound, then random byte strings, single-byte substitutions and
 //! structured random URI families with longer paths.
 //!
+//! Two further parts live in `c12_wide.rs`: every constructor door (octet,
+//! `&str`, serde over every transport) on texts with one character outside
+//! ASCII at every position, and families of URIs whose authority / module
+//! name is 255 .. 131073 octets long (thorough: 1 MiB).
+//!
 //! Oracle: the laws of the property statement, written here on the *text*
 //! of the URIs (own splitter, own reference equality = scheme and authority
 //! ASCII-case-folded, rest exact). The library is never asked what the
@@ -21,6 +26,9 @@ use serde_json::{json, Value};
 use std::collections::HashMap;
 use std::hash::Hash;
 use std::str::FromStr;
+
+#[path = "c12_wide.rs"]
+mod wide;
 
 const SIGMA: [u8; 7] = *b"aAb/.: ";
 
@@ -141,6 +149,15 @@ fn hash_of<T: Hash>(t: &T) -> u64 {
 }
 
 fn show(t: &[u8]) -> Value {
+    if t.len() > 8192 {
+        // the wide families: the case is regenerated from seed and shard; head, tail and a digest identify it
+        let cut = |x: &[u8]| String::from_utf8_lossy(x).into_owned();
+        let slashes: Vec<usize> = t.iter().enumerate().filter(|(_, c)| **c == b'/').map(|(i, _)| i).take(6).collect();
+        return json!({
+            "octets": t.len(), "head": cut(&t[..64]), "tail": cut(&t[t.len() - 64..]),
+            "first_slashes_at": slashes, "fnv64": format!("{:016x}", crate::core::fnv64(t)),
+        });
+    }
     match std::str::from_utf8(t) {
         Ok(s) if !s.chars().any(|c| c.is_control()) => json!(s),
         _ => json!({ "hex": hex(t) }),
@@ -166,6 +183,14 @@ struct Findings {
 
 impl Findings {
     fn push(&mut self, sig: String, desc: String, detail: Value) {
+        // messages quote accessor results: keep those of the wide families readable
+        let desc = if desc.len() > 1200 {
+            let head: String = desc.chars().take(400).collect();
+            let tail: Vec<char> = desc.chars().rev().take(200).collect();
+            format!("{head} ... [{} octets] ... {}", desc.len(), tail.into_iter().rev().collect::<String>())
+        } else {
+            desc
+        };
         if self.list.len() < 256 {
             self.list.push(Finding { sig, desc, detail });
         }
@@ -1138,6 +1163,12 @@ fn rsync_family_laws(ctx: &mut Ctx, c: &mut Counters, texts: &[Vec<u8>], args: &
             None => ctx.obs(&format!("{what}_member_rejected"), 1),
         }
     }
+    rsync_domain_laws(ctx, c, items, args, what)
+}
+
+/// The pair, join and chain laws over already parsed members.
+fn rsync_domain_laws(ctx: &mut Ctx, c: &mut Counters, items: Vec<(Vec<u8>, Rsync)>, args: &[Vec<u8>], what: &str) -> Option<(u64, usize)> {
+    let texts: Vec<Vec<u8>> = items.iter().map(|(t, _)| t.clone()).collect();
     let res = ctx.no_panic(&format!("rsync-{what}"), || json!({"family": texts.iter().map(|t| show(t)).collect::<Vec<_>>()}), || {
         let mut f = Findings::default();
         let (dom, _) = build_domain(items, true);
@@ -1194,6 +1225,11 @@ fn https_family_laws(ctx: &mut Ctx, c: &mut Counters, texts: &[Vec<u8>], args: &
             None => ctx.obs(&format!("{what}_member_rejected"), 1),
         }
     }
+    https_domain_laws(ctx, c, items, args, what)
+}
+
+fn https_domain_laws(ctx: &mut Ctx, c: &mut Counters, items: Vec<(Vec<u8>, Https)>, args: &[Vec<u8>], what: &str) -> Option<(u64, usize)> {
+    let texts: Vec<Vec<u8>> = items.iter().map(|(t, _)| t.clone()).collect();
     let res = ctx.no_panic(&format!("https-{what}"), || json!({"family": texts.iter().map(|t| show(t)).collect::<Vec<_>>()}), || {
         let mut f = Findings::default();
         let (dom, _) = build_domain(items, false);
@@ -1944,6 +1980,18 @@ pub fn run(ctx: &mut Ctx) {
 
     //---- 6. size-dependent behaviour: long components, case differences at every region
     size_families(ctx, &mut c);
+
+    //---- 7. every constructor door on text with characters outside ASCII
+    // (Miri: the even shards)
+    if !miri || ctx.shard % 2 == 0 {
+        wide::non_ascii_doors(ctx, &mut c);
+    }
+
+    //---- 8. authority / module name of 255 .. 131073 octets (thorough: 1 MiB)
+    // (Miri: the odd shards)
+    if !miri || ctx.shard % 2 == 1 {
+        wide::wide_families(ctx, &mut c);
+    }
 
     //---- evidence ------------------------------------------------------------
     ctx.evals(c.evals);
